@@ -627,7 +627,10 @@ This might be due to one or several causes:
     same version of IPFS-cluster.
 **************************************************
 `)
-		c.Shutdown(ctx)
+		// ready() runs on a goroutine that Shutdown waits for
+		// (c.wg): shutting down from here would wait for itself
+		// forever while holding the shutdown lock.
+		go c.Shutdown(c.ctx)
 		return
 	case <-c.consensus.Ready(ctx):
 		// Consensus ready means the state is up to date. Every item
